@@ -31,7 +31,7 @@ def pinned : Cfg := ⟨.pinned⟩
 def fixed : Cfg := ⟨.fixed⟩
 
 /-- The variant the correspondence run compares the implementation with. -/
-def active : Cfg := { userOrder := .pinned }
+def active : Cfg := { userOrder := .fixed }
 
 /-! ### Request AST -/
 
